@@ -382,9 +382,18 @@ pub struct CowValue<T: Elem> { shared: *const T, private: std::mem::MaybeUninit<
 impl<T: Elem> CowValue<T> {
     pub fn new(source: &ManuallyDrop<T>) -> Self { CowValue { shared: &**source as *const T, private: std::mem::MaybeUninit::uninit(), detached: false } }
 }
+thread_local! {
+    /// (calls of the overridden `move_into`, calls that came with a wrong `bytes_size`)
+    pub static COW_MOVES: std::cell::Cell<(u32, u32)> = const { std::cell::Cell::new((0, 0)) };
+}
 impl<T: Elem> any_vec::any_value::AnyValueSizeless for CowValue<T> {
     type Type = any_vec::any_value::Unknown;
     fn as_bytes_ptr(&self) -> *const u8 { if self.detached { self.private.as_ptr() as *const u8 } else { self.shared as *const u8 } }
+    // a user may override the provided `move_into` (LazyClone does): consuming a value has to go through it
+    unsafe fn move_into<KnownType: 'static>(self, out: *mut u8, bytes_size: usize) {
+        COW_MOVES.with(|c| { let (n, bad) = c.get(); c.set((n + 1, bad + (bytes_size != size_of::<T>()) as u32)); });
+        std::ptr::copy_nonoverlapping(self.as_bytes_ptr(), out, size_of::<T>());
+    }
 }
 impl<T: Elem> any_vec::any_value::AnyValueSizelessMut for CowValue<T> {
     fn as_bytes_mut_ptr(&mut self) -> *mut u8 {
@@ -392,21 +401,30 @@ impl<T: Elem> any_vec::any_value::AnyValueSizelessMut for CowValue<T> {
         self.private.as_mut_ptr() as *mut u8
     }
 }
+// ... and it is a lazy-clone source: `clone_into` is required, the library has to clone through it
+impl<T: Elem> any_vec::any_value::AnyValueCloneable for CowValue<T> {
+    unsafe fn clone_into(&self, out: *mut u8) {
+        COW_MOVES.with(|c| { let (n, bad) = c.get(); c.set((n + 100, bad)); });
+        let c: T = (*(self.as_bytes_ptr() as *const T)).clone();
+        std::ptr::write(out as *mut T, c);
+    }
+}
 impl<T: Elem> AnyValueTypeless for CowValue<T> { fn size(&self) -> usize { size_of::<T>() } }
 impl<T: Elem> AnyValue for CowValue<T> { fn value_typeid(&self) -> TypeId { TypeId::of::<T>() } }
 impl<T: Elem> AnyValueTypelessMut for CowValue<T> {}
 impl<T: Elem> AnyValueMut for CowValue<T> {}
 
-pub const N_USER_OPS: u8 = 5;
+pub const N_USER_OPS: u8 = 6;
 
 impl<T: Elem + SatisfyTraits<Tr>, M: MX, Tr: TrX + ?Sized> World<T, M, Tr> {
     /// C13 / C01: the user-defined handle swapped with element i (both dispatch orders), pushed, inserted at i
     pub fn do_user_value(&mut self, op: u8, i: usize, out: &mut Out) {
         let len = self.ma.len();
-        if T::SIZE == 0 || (op < 2 && i >= len) || (op >= 3 && i > len) || (op >= 2 && !M::RESIZABLE && len >= self.a.capacity()) { out.outcome.push_str("n/a"); return; }
+        if T::SIZE == 0 || (op < 2 && i >= len) || (op >= 3 && i > len) || (op >= 2 && !M::RESIZABLE && len >= self.a.capacity()) || (op == 5 && i != 0) { out.outcome.push_str("n/a"); return; }
         let source = ManuallyDrop::new({ let _w = elem::WindowOff::new(); T::fresh() });
         let sid = source.id();
         let mut cow_slot = Some(CowValue::<T>::new(&source));
+        COW_MOVES.with(|c| c.set((0, 0)));
         let a = &mut self.a;
         let cs = &mut cow_slot;
         let r = guarded(|| match op {
@@ -414,12 +432,29 @@ impl<T: Elem + SatisfyTraits<Tr>, M: MX, Tr: TrX + ?Sized> World<T, M, Tr> {
             1 => { let mut e = a.at_mut(i); cs.as_mut().unwrap().swap(&mut *e); 0 }
             2 => { a.push(cs.take().unwrap()); 1 }
             3 => { a.insert(i, cs.take().unwrap()); 1 }
-            _ => { let d = a.splice(i..i, [cs.take().unwrap()]); drop(d); 1 }
+            4 => { let d = a.splice(i..i, [cs.take().unwrap()]); drop(d); 1 }
+            _ => { use any_vec::any_value::AnyValueCloneable; let c = cs.as_ref().unwrap(); a.push(c.lazy_clone()); 2 }
         });
         match r {
             Err(Caught::Injected) => { out.faulted = true; out.leak_ok = true; return; }
             Err(Caught::Panic(m)) => { out.fail(Class::Vec, "unexpected-panic", format!("user-defined value handle, operation {op}: {m}")); out.faulted = true; out.leak_ok = true; return; }
-            Ok(1) => { match op { 2 => self.ma.push(Mv::Id(sid)), _ => self.ma.insert(i, Mv::Id(sid)) } out.outcome.push_str("ok"); return; }
+            Ok(1) => {
+                match op { 2 => self.ma.push(Mv::Id(sid)), _ => self.ma.insert(i, Mv::Id(sid)) }
+                let (n, bad) = COW_MOVES.with(|c| c.get());
+                if n != 1 { out.fail(Class::Vec, "user-value-move-into", format!("the vector consumed a user-defined value with {n} calls of its `move_into` (want exactly 1)")); }
+                if bad != 0 { out.fail(Class::Vec, "user-value-move-into", "`move_into` was called with a bytes_size that is not the element size".into()); }
+                out.outcome.push_str("ok");
+                return;
+            }
+            Ok(2) => {
+                // a lazy clone of the user value was pushed: one `clone_into`, the handle still owns its value
+                self.ma.push(Mv::CloneOf(sid));
+                let (n, _) = COW_MOVES.with(|c| c.get());
+                if n != 100 { out.fail(Class::Vec, "user-value-clone-into", format!("a lazy clone of a user-defined value was consumed with {} clone_into / {} move_into calls of the value (want 1 / 0)", n / 100, n % 100)); }
+                let _ = guarded(move || { let mut s = source; unsafe { ManuallyDrop::drop(&mut s); } });
+                out.outcome.push_str("ok");
+                return;
+            }
             Ok(_) => {}
         }
         // after a swap: the element holds the handle's value, the handle (detached) holds the element's old value, the shared source
